@@ -241,18 +241,61 @@ func (w *world) checkSharing(v *version, prop, when string) bool {
 	return len(probs) == 0
 }
 
+// abortedRefresh: a dry run on copies tells the number of the last round; the attempt on the real objects loses that round.
+func (w *world) abortedRefresh(mk func(map[party.ID]interface{}, string) *protos.Session, mat map[party.ID]interface{}, before map[party.ID]string, label string) {
+	dry := w.run(mk(protos.CloneConfigs(mat), "rf-dry"), label+"/refresh-dry")
+	last := 0
+	for rd := range dry.Engine.ShapeB {
+		if rd > last {
+			last = rd
+		}
+	}
+	for rd := range dry.Engine.ShapeM {
+		if rd > last {
+			last = rd
+		}
+	}
+	if !dry.AllDone() || last < 2 {
+		return
+	}
+	r, err := protos.Run(mk(mat, "rf-aborted"), protos.RunOpts{Seed: w.seed + "/" + label + "/refresh-aborted", StopAll: true,
+		Drop: func(d *sim.Delivery) bool { return int(d.Msg.RoundNumber) == last }})
+	w.stats["sessions"]++
+	if err != nil {
+		fatal("aborted refresh: %v", err)
+	}
+	if w.scheme == "frost" || w.scheme == "taproot" {
+		// (a FROST refresh writes the new share into the caller's object when it completes - as the library is; the check
+		// below is about an attempt that did NOT complete: everybody needs the last round of everybody else)
+		for id, st := range r.Status {
+			if st.St == "done" {
+				return
+			}
+			_ = id
+		}
+	}
+	w.unchanged(before, mat, "C08", fmt.Sprintf("a refresh that was given up (the messages of its last round, %d, were lost)", last))
+	w.stats["aborted-refreshes"]++
+}
+
 func (w *world) refresh(cur *version, label string) *version {
 	mat := protos.CloneConfigs(cur.mat)
-	var s *protos.Session
-	switch w.scheme {
-	case "frost", "taproot":
-		s = protos.FrostRefresh(mat, []byte("rf"))
-	case "cmp":
-		s = protos.CmpRefresh(mat, []byte("rf"))
-	case "doerner":
-		s = protos.DoernerRefresh(w.ids[0], w.ids[1], mat[w.ids[0]].(*doerner.ConfigReceiver), mat[w.ids[1]].(*doerner.ConfigSender), []byte("rf"))
+	mk := func(m map[party.ID]interface{}, sid string) *protos.Session {
+		switch w.scheme {
+		case "frost", "taproot":
+			return protos.FrostRefresh(m, []byte(sid))
+		case "cmp":
+			return protos.CmpRefresh(m, []byte(sid))
+		}
+		return protos.DoernerRefresh(w.ids[0], w.ids[1], m[w.ids[0]].(*doerner.ConfigReceiver), m[w.ids[1]].(*doerner.ConfigSender), []byte(sid))
 	}
 	snapBefore := w.snap(mat)
+	if (len(w.hist)+len(label))%2 == 0 && w.scheme != "cmp" || w.scheme == "cmp" && (len(w.hist)+len(label))%4 == 0 {
+		// an attempt that is given up comes first: the messages of the last round are lost, everybody stops.  A refresh
+		// that did not complete must leave the key material objects as they were (the parties go on with them).
+		w.abortedRefresh(mk, mat, snapBefore, label)
+	}
+	s := mk(mat, "rf")
 	r := w.run(s, label+"/refresh")
 	if w.scheme == "cmp" || w.scheme == "doerner" {
 		// (a FROST refresh adds to the caller's share object in place - as the library is; not part of a statement)
